@@ -27,7 +27,7 @@ MAXIT = 2
 def base_ctx(on_call=None, spectrum=None):
     mod = harness_module('h_mssm_conv')
     dem = demangled(mod)
-    ex = executor(mod, RealDom(), extra_stubs=dict(S.STRING_MODEL_STUBS), fork_select=True)
+    ex = executor(mod, RealDom([(0.15, z3.RealVal('3/20'))]), extra_stubs=dict(S.STRING_MODEL_STUBS), fork_select=True)      # 0.15 denotes 3/20
     inner = ext_handler(dem, on_call=on_call)
 
     def handler(ex_, st_, name, args_, I):
@@ -89,6 +89,9 @@ def me2_fpi(chk):
             # smuon spectrum as an uninterpreted function of me2(1,1) (all other parameters are fixed during this fit)
             mp_ = cells['mp']
             me2 = zr(ex_.load(st_, Ptr(mp_.rid, cells['me2']), llir.DOUBLE))
+            if cells.get('in_fn'):
+                snap = {k: zr(ex_.load(st_, Ptr(mp_.rid, cells[k]), llir.DOUBLE)) for k in NEED_ME2}
+                st_.event('me2-update', snap=snap)
             for i in range(2):
                 ex_.store(st_, Ptr(mp_.rid, cells['MSm%d' % i]), llir.DOUBLE, ex_.leaf(st_, 'uf:MSm%d' % i, [me2]))
                 for j in range(2):
@@ -122,12 +125,48 @@ def me2_fpi(chk):
     lo = z3.If(P0 <= P1, P0, P1)
     hi = z3.If(P0 <= P1, P1, P0)
     jobs = []
+    # named parameters of the smuon mass matrix
+    ex.fork_select = False
+    stq, Q = probe(ex, st, mp, {'vd': ('vx_par', [3]), 'vu': ('vx_par', [4]), 'g1': ('vx_par', [5]), 'ymu': ('vx_par', [7])})
+    st = stq
+    Q = {k: zr(v) for k, v in Q.items()}
+    cells['in_fn'] = True
+    seen_upd = set()
     for maxit in range(0, MAXIT + 1):
         s2 = ex.start('vx_convert_me2_fpi_modify', [mp, goal, maxit], st.fork())
         s2.pc += [goal > 0]
         rr = ex.explore(s2)
         for pi, p in enumerate(rr):
             tag = 'S1:maxit%d#%d' % (maxit, pi)
+            ups = [e[1]['snap'] for e in p.events if e[0] == 'me2-update']
+            if ups:
+                sn = ups[0]
+                key = sn['me2'].get_id()
+                if key not in seen_upd:
+                    seen_upd.add(key)
+                    # first iteration: the goal masses are the two sorted pole masses
+                    g0, g1_ = lo, hi
+                    m11 = sn['ZM01'] * sn['ZM01'] * g0 * g0 + sn['ZM11'] * sn['ZM11'] * g1_ * g1_
+                    # RR entry of the smuon mass matrix (C04): me2 + y^2 vd^2/2 + D(T3=0, Y=2) with D = -(3/5) g1^2 (vd^2 - vu^2)/4
+                    rest = Q['ymu'] * Q['ymu'] * Q['vd'] * Q['vd'] / 2 - zr(Fr(3, 20)) * Q['g1'] * Q['g1'] * (Q['vd'] * Q['vd'] - Q['vu'] * Q['vu'])
+                    pole_ids = {P0.get_id(), P1.get_id()}
+
+                    def only_poles(e_):
+                        ok_ = False
+                        todo_ = [e_]
+                        while todo_:
+                            t_ = todo_.pop()
+                            if z3.is_const(t_) and t_.decl().kind() == z3.Z3_OP_UNINTERPRETED:
+                                if t_.get_id() not in pole_ids:
+                                    return False
+                                ok_ = True
+                            todo_.extend(t_.children())
+                        return ok_
+                    consu = [k_ for k_ in p.pc if only_poles(k_)] + [sn['me2'] != m11 - rest]
+                    # the first-iteration snapshot does not depend on later branches: only the ordering of the pole masses matters
+                    jobs.append({'name': tag + ':update-formula', 'constraints': consu, 'family': fam, 'update': True,
+                                 'sample': {'obligation': 'convert_me2_fpi_modify, first iteration: me2(2,2) = (ZM^T diag(MSm_goal^2) ZM)(1,1) - '
+                                            '(y_mu^2 vd^2/2 + D-term of the right-handed smuon), MSm_goal = sorted pole masses'}})
             if p.outcome[0] != 'ret':
                 r, m = chk.solve(list(p.pc), 20000)
                 if r != 'unsat':
@@ -149,7 +188,10 @@ def me2_fpi(chk):
     chk.absorb_executor(ex)
     res = chk.prove_many(jobs, timeout_ms=60000)
     for job, (r, m) in zip(jobs, res):
-        if r == 'sat':
+        if r == 'sat' and job.get('update'):
+            chk.violation(job['name'], 'C05:me2-fpi:update-formula', 'convert_me2_fpi_modify does not set me2(2,2) to the RR entry reconstructed from '
+                          'the goal masses minus the F- and D-terms', '#!/bin/sh\ncd %s && exec python3-vt -m props.replay_c05 loose\n' % VERIF)
+        elif r == 'sat':
             chk.violation(job['name'], 'C05:me2-fpi:precision-of-wrong-state',
                           'convert_me2_fpi_modify reports a precision that is not the distance of the right-handed smuon of the final '
                           'spectrum from its pole mass (the right-like smuon is not re-identified after the spectrum changed)',
